@@ -216,3 +216,52 @@ Section Ev2.
     apply fam_bind; [apply fam_mapM; intros; apply word_idx_family|]. reflexivity.
   Qed.
 End Ev2.
+
+(* ------------------------------------------------------------------ the encoders behind <X>MnemonicGenerator.FromEntropy(bytes)
+   A wrong entropy length is the ValueError of the length guard; on a legal length the contributors' round-trip
+   theorems show the encoder returns (so its list-index / assert sites -- IndexError, AssertionError in the models --
+   are unreachable on a bytes object). *)
+From BU Require Import Gen.WlBip39 Model.Bip39Spec.
+From BU Require Lemmas.Bip39Props Lemmas.MnemConstsOk Lemmas.MnemConstsOkB39.
+
+(* Bip39MnemonicGenerator(lang).FromEntropy(bytes) / Bip39MnemonicEncoder(lang).Encode(bytes) *)
+Lemma bip39_encode_family sha256 nfkd lower wl ent :
+  Lemmas.Bip39Props.sha_ok sha256 -> In wl bip39_langs -> bytes_ok ent ->
+  in_family (Bip39.encode sha256 nfkd lower wl ent) = true.
+Proof.
+  intros Hs Hwl Hb. rewrite (Lemmas.Bip39Props.p_encode_raw sha256 nfkd lower Hs wl Hwl ent Hb).
+  apply fam_rmap. unfold encode_spec. fam.
+Qed.
+
+(* MoneroMnemonicGenerator(lang).FromEntropyNoChecksum / FromEntropyWithChecksum (bytes) *)
+Lemma xmr_encode_family i L chk b : nth_error xmr_langs i = Some L -> bytes_ok b ->
+  in_family (Lemmas.MnemC17.xmr_encode i chk b) = true.
+Proof.
+  intros HL Hb. destruct (MoneroMnemonic.valid_entropy_len xmr_entropy_bit_lens b) eqn:V.
+  - destruct (Lemmas.MnemC17.xmr_dec_enc words_to_chunk i L chk b (or_introl eq_refl) HL Hb V) as (ws & E & _).
+    unfold Lemmas.MnemC17.xmr_encode. rewrite E. reflexivity.
+  - unfold Lemmas.MnemC17.xmr_encode, MoneroMnemonic.encode, MoneroMnemonic.encode_to_list, MoneroMnemonic.get_lang.
+    rewrite HL. cbn [of_option bind Ok]. rewrite V. reflexivity.
+Qed.
+
+(* AlgorandMnemonicGenerator.FromEntropy(bytes) *)
+Lemma algo_encode_family sha b :
+  (forall x, length (sha x) = 32%nat) -> (forall x, bytes_ok (sha x)) -> bytes_ok b ->
+  in_family (Lemmas.MnemC17.algo_encode sha b) = true.
+Proof.
+  intros H1 H2 Hb. destruct (Nat.eq_dec (length b) 32) as [L|L].
+  - destruct (Lemmas.MnemC17.algo_dec_enc sha H1 H2 true b Hb L) as (ws & E & _).
+    unfold Lemmas.MnemC17.algo_encode. rewrite E. reflexivity.
+  - unfold Lemmas.MnemC17.algo_encode, AlgorandMnemonic.encode. rewrite Lemmas.MnemConstsOkB39.algo_ent_eq.
+    cbn [memb]. destruct (N.eqb_spec (N.of_nat (length b) * 8) 256) as [Q|Q]; [lia|]. reflexivity.
+Qed.
+
+(* ElectrumV1MnemonicGenerator.FromEntropy(bytes) *)
+Lemma ev1_encode_family b : bytes_ok b -> in_family (Lemmas.MnemC17.ev1_encode b) = true.
+Proof.
+  intros Hb. destruct (Nat.eq_dec (length b) 16) as [L|L].
+  - destruct (Lemmas.MnemC17.ev1_dec_enc words_to_chunk b (or_introl eq_refl) Hb L) as (ws & E & _).
+    unfold Lemmas.MnemC17.ev1_encode. rewrite E. reflexivity.
+  - unfold Lemmas.MnemC17.ev1_encode, ElectrumV1Mnemonic.encode. rewrite Lemmas.MnemConstsOk.ev1_ent_eq.
+    cbn [memb]. destruct (N.eqb_spec (N.of_nat (length b) * 8) 128) as [Q|Q]; [lia|]. reflexivity.
+Qed.
